@@ -132,8 +132,9 @@ def run(F, rep):
     if src.get('k') == 'Ref' and src.get('dk') == 'local':
         exprs = [v['c'][0] for v in am.walk() if v.get('k') == 'Var' and v.get('d') == src['d'] and v.get('c')]
     txt = ' '.join(render(e) for e in exprs)
-    members = {m['n'] for e in exprs for m in walk(e) if m.get('k') == 'Member' and m.get('field')}
-    names = members | {m.get('n') for e in exprs for m in walk(e) if m.get('k') in ('DepMember', 'Member') and m.get('n')}
+    from engines import walk_pred as _wp20
+    members = {m['n'] for e in exprs for m in _wp20(F, e) if m.get('k') == 'Member' and m.get('field')}
+    names = members | {m.get('n') for e in exprs for m in _wp20(F, e) if m.get('k') in ('DepMember', 'Member') and m.get('n')}
     if 'mIsExternal' in txt:
         names.add('mIsExternal')
     members = names
